@@ -114,7 +114,7 @@ C("Bucket._set", cls="Bucket",
                       "set_eq(elems(self._keys), old(elems(self._keys)))",
   },
   modifies=["list:self._keys", "list:self._values", "self._p_changed"],
-  props=["C01", "C03", "C04", "C09"])
+  props=["C01", "C03", "C04", "C09", "C15"])
 
 C("Bucket._del", cls="Bucket", params={"key": "K"},
   requires=dict(WF_BUCKET),
@@ -128,7 +128,7 @@ C("Bucket._del", cls="Bucket", params={"key": "K"},
   },
   raises={"KeyError": {"absent": ABSENT, "flag_same": "changed(self) == old(changed(self))"}},
   modifies=["list:self._keys", "list:self._values", "self._p_changed"],
-  props=["C01", "C03", "C04", "C09"])
+  props=["C01", "C03", "C04", "C09", "C15"])
 
 C("Set._set", cls="Set",
   params={"key": "K", "value": ["none", "V"], "ifunset": "bool"},
@@ -143,7 +143,7 @@ C("Set._set", cls="Set",
       "unflagged": "implies(not result[0], changed(self) == old(changed(self)))",
   },
   modifies=["list:self._keys", "self._p_changed"],
-  props=["C01", "C03", "C04", "C09"])
+  props=["C01", "C03", "C04", "C09", "C15"])
 
 C("Set._del", cls="Set", params={"key": "K"},
   requires=dict(WF_SET),
@@ -157,7 +157,7 @@ C("Set._del", cls="Set", params={"key": "K"},
   },
   raises={"KeyError": {"absent": ABSENT, "flag_same": "changed(self) == old(changed(self))"}},
   modifies=["list:self._keys", "self._p_changed"],
-  props=["C01", "C03", "C04", "C09"])
+  props=["C01", "C03", "C04", "C09", "C15"])
 
 # --------------------------------------------------------------------------
 # range search (C02).  Oracle from the property statement: an omitted / None
@@ -341,7 +341,7 @@ C("Bucket._split", cls="Bucket", params={"index": "int"},
       "same_lists": "self._keys is old(self._keys) and self._values is old(self._values)",
   },
   modifies=["list:self._keys", "list:self._values", "self._next", "self._p_changed"],
-  ghost={"allocates": True}, props=["C01", "C03", "C04"])
+  ghost={"allocates": True}, props=["C01", "C03", "C04", "C15"])
 
 C("Set._split", cls="Set", params={"index": "int"},
   requires=dict(WF_SET), returns="ref:Set",
@@ -356,7 +356,7 @@ C("Set._split", cls="Set", params={"index": "int"},
       "flagged": "changed(self)", "same_list": "self._keys is old(self._keys)",
   },
   modifies=["list:self._keys", "self._next", "self._p_changed"],
-  ghost={"allocates": True}, props=["C01", "C03", "C04"])
+  ghost={"allocates": True}, props=["C01", "C03", "C04", "C15"])
 
 C("_BucketBase._deleteNextBucket", cls=LEAF, params={},
   requires={}, returns="none",
